@@ -17,10 +17,10 @@ import (
 // ---------- task pool histories ----------
 
 type Step struct {
-	K     string `json:"k"` // burst, release, idle, probe
-	N     int    `json:"n,omitempty"`
-	Kind  string `json:"kind,omitempty"` // quick, gate, panic
-	Gate  int    `json:"gate,omitempty"`
+	K    string `json:"k"` // burst, release, idle, probe
+	N    int    `json:"n,omitempty"`
+	Kind string `json:"kind,omitempty"` // quick, gate, panic
+	Gate int    `json:"gate,omitempty"`
 }
 
 type Case struct {
